@@ -250,7 +250,7 @@ class TextFlow:
         }
         self.message = slog.param_names()[2] if len(slog.param_names()) > 2 else "message"
 
-    def leaves(self, e: ast.AST | None, fn: FunctionInfo, esc: bool = False, brace: bool = False, pct: bool = False, depth: int = 10, at=None) -> list[_Leaf] | None:
+    def leaves(self, e: ast.AST | None, fn: FunctionInfo, esc: bool = False, brace: bool = False, pct: bool = False, depth: int = 20, at=None) -> list[_Leaf] | None:
         """`at`: the CFG node at which `e` is evaluated (locals are resolved to the definitions reaching it)."""
         e = unwrap(e) if e is not None else None
         if e is None or depth < 0:
@@ -303,6 +303,25 @@ class TextFlow:
                 return many([recv])
         if isinstance(e, ast.Call) and isinstance(e.func, ast.Name) and e.func.id in ("str", "repr", "format") and e.args:
             return many(e.args[:1])
+        if isinstance(e, (ast.GeneratorExp, ast.ListComp, ast.SetComp)) and len(e.generators) == 1 and isinstance(e.generators[0].target, ast.Name) and not e.generators[0].is_async:
+            # `" ".join(f"[{tag}]" for tag in tags)`: each element is the template applied to a part of the iterable
+            gen = e.generators[0]
+            binds = self.__dict__.setdefault("_comp_binds", {})
+            key = (fn.qualname, gen.target.id)
+            if key in binds:
+                return None
+            binds[key] = (gen.iter, at)
+            try:
+                return many([e.elt])
+            finally:
+                del binds[key]
+        if isinstance(e, ast.Name) and (fn.qualname, e.id) in self.__dict__.get("_comp_binds", {}):
+            it_, at_ = self._comp_binds[(fn.qualname, e.id)]  # type: ignore[attr-defined]
+            saved = self._comp_binds.pop((fn.qualname, e.id))  # type: ignore[attr-defined]
+            try:
+                return many([it_], at=at_)
+            finally:
+                self._comp_binds[(fn.qualname, e.id)] = saved  # type: ignore[attr-defined]
         if isinstance(e, ast.Name):
             if fn is self.slog and e.id == self.message:
                 return [_Leaf("message", esc, brace, pct)]
@@ -492,6 +511,14 @@ def evaluate_scope_construction(an: Analysis) -> list[dict]:
                     return ("named", av if av is not NOVALUE else ast.dump(a))
                 if isinstance(e.func, ast.Attribute) and e.func.attr == "done" and isinstance(e.func.value, ast.Attribute) and eval_expr(e.func.value.value, ev) is CUR:
                     return parent_done if parent_done is not None else NOVALUE
+            if isinstance(e, ast.Attribute) and fi_ is init and is_name(e.value, "self") and isinstance(e.ctx, ast.Load):
+                # an attribute __init__ stored (once, in an earlier top-level statement) and reads back: `self._parent`
+                vals_ = smc.attr_val.get(e.attr, [])
+                top = init.node.body
+                at_store = next((i_ for i_, st_ in enumerate(top) if vals_ and any(x is vals_[0] for x in ast.walk(st_)) and isinstance(st_, (ast.Assign, ast.AnnAssign))), None)
+                at_use = next((i_ for i_, st_ in enumerate(top) if any(x is e for x in ast.walk(st_))), None)
+                if len(vals_) == 1 and at_store is not None and at_use is not None and at_store < at_use:
+                    return eval_expr(vals_[0], ev)
             if isinstance(e, ast.Attribute):
                 if e.attr == "hex" and isinstance(e.value, ast.Call) and an.callee(fi_, e.value) == "uuid.uuid4":
                     return "FRESH"
